@@ -99,9 +99,23 @@ class C02(IRProp):
         for name, got in obs.items():
             if got[0] == "dangling":
                 bad.append(dict(what=f"label {name}: {got[1]}", finding=None))
+        # ... and when apply() has returned (the intervals are joined again)
+        import gtirb
+        m = r["built"].m
+        live = {id(b) for b in m.byte_blocks} | {id(p) for p in m.proxies}
+        for sy in m.symbols:
+            ref = sy.referent
+            if isinstance(ref, (gtirb.ByteBlock, gtirb.ProxyBlock)) and id(ref) not in live:
+                bad.append(dict(what=f"label {sy.name}: after apply() it refers to a {type(ref).__name__} that is not part of the module", finding=None))
         return bad
 
     def classify(self, case, name, want, got):
+        # known finding: a label that ends a text patch in a data block is an end-of-block symbol of the patch's block; a later
+        # insertion at the same offset is put in front of it
+        if name.startswith(".Ld") and want[0] == "pos" and got[0] == "pos" and got[1] > want[1]:
+            for n, (i, t, off, ln, patch, _) in enumerate(case.mods):
+                if isinstance(patch, str) and patch.endswith(".Ld:") and any(j == i and o2 == off and t2 != "del" and n2 > n for n2, (j, t2, o2, l2, p2, _) in enumerate(case.mods)):
+                    return "C02-label-ending-a-data-patch-follows-later-insertions"
         # known finding: end label of block k found on a proxy while block k+1 was deleted with retarget_to_proxy
         if name.startswith("E") and got == ("proxy",) and want[0] == "pos":
             k = int(name[1:])
